@@ -14,7 +14,10 @@ S11 == <<"1", ".", "1">>      S12 == <<"1", ".", "2">>      S21 == <<"2", ".", "
 E111 == S11 \o <<".", "1">>   E121 == S12 \o <<".", "1">>   E211 == S21 \o <<".", "1">>   E311 == S31 \o <<".", "1">>
 I1111 == E111 \o <<".", "1">> I1112 == E111 \o <<".", "2">> I1211 == E121 \o <<".", "1">> I2111 == E211 \o <<".", "1">> I3111 == E311 \o <<".", "1">>
 CT == <<"C", "T">>            MR == <<"M", "R">>            ct == <<"c", "t">>
-Inst(pid, pn, st, d, se, mo, sop) == [PatientID |-> pid, PatientName |-> pn, StudyInstanceUID |-> st, StudyDate |-> d, SeriesInstanceUID |-> se, Modality |-> mo, SOPInstanceUID |-> sop]
+N0007 == <<"0", "0", "0", "7">>      N12 == <<"1", "2">>
+SerNo(se) == IF se = E121 THEN N12 ELSE N0007        \* series 1.2.1 is number 12, the others are written 0007
+Inst(pid, pn, st, d, se, mo, sop) == [PatientID |-> pid, PatientName |-> pn, StudyInstanceUID |-> st, StudyDate |-> d, SeriesInstanceUID |-> se, Modality |-> mo,
+                                      SeriesNumber |-> SerNo(se), SOPInstanceUID |-> sop]
 i1 == Inst(P1, DoeJohn, S11, 20200101, E111, CT, I1111)
 i2 == Inst(P1, DoeJohn, S11, 20200101, E111, CT, I1112)
 i3 == Inst(P1, DoeJohn, S12, 20210101, E121, MR, I1211)
@@ -36,6 +39,7 @@ Pool == [PatientID |-> {Ab, Un, Sg(P1), Sg(PU1), Wd(<<"P", "*">>), Wd(<<"p", "*"
          StudyDate |-> {Ab, Un, Sg(20200101), Rg(20200101, 20201231), Rg(0, 20201231), Rg(20200102, 0), Rg(20200101, 20200101)},
          SeriesInstanceUID |-> {Ab, Un, Sg(E111), Ls({E111, E121})},
          Modality |-> {Ab, Un, Sg(CT), Sg(ct), Wd(<<"C", "*">>), Wd(<<"c", "*">>), Wd(<<"?", "T">>)},
+         SeriesNumber |-> {Ab, Un, Sg(N0007), Sg(N12)},
          SOPInstanceUID |-> {Ab, Un, Sg(I1111), Ls({I1111, I1211})}]
 AllLevels == {"PATIENT", "STUDY", "SERIES", "IMAGE"}
 \* the plain identifier of a level: its unique key and those above universal, nothing else
